@@ -51,7 +51,8 @@ def real_objects(ROOT, REPO, spec, bdir, hdr_hash):
         o = os.path.join(cdir, '%s-%s.o' % (os.path.basename(s).replace('.', '_'), key))
         if not os.path.exists(o):
             tmp = o + '.tmp%d' % os.getpid()
-            r = sh(['g++'] + GXX_FLAGS + inc + ['-c', s, '-o', tmp])
+            wf = spec.get('wrap_flags', []) if s.endswith(spec.get('wrap') or '\0') else []
+            r = sh(['g++'] + GXX_FLAGS + inc + wf + ['-c', s, '-o', tmp])
             if r.returncode != 0:
                 raise RuntimeError('g++ failed on %s: %s' % (s, r.stderr[-2000:]))
             # roots with internal linkage (static functions) become linkable for the harness
